@@ -83,15 +83,59 @@ impl AsRef<Expression> for Expression {
     }
 }
 
+impl Expression {
+    /// prints the operations without converting the terms: a parameter that is not bound yet
+    /// (an item parsed from text can be printed before its parameters are set) has no
+    /// `datalog::Term` form, and prints as `{name}` like everywhere else
+    fn print_ops(ops: &[Op], symbols: &mut SymbolTable) -> Option<String> {
+        let mut stack: Vec<String> = Vec::new();
+
+        for op in ops {
+            match op {
+                Op::Value(term) => stack.push(term.to_string()),
+                Op::Unary(unary) => {
+                    let value = stack.pop()?;
+                    let unary = unary.convert(symbols);
+                    stack.push(unary.print(value, symbols));
+                }
+                Op::Binary(binary) => {
+                    let right = stack.pop()?;
+                    let left = stack.pop()?;
+                    let binary = binary.convert(symbols);
+                    stack.push(binary.print(left, right, symbols));
+                }
+                Op::Closure(params, ops) => {
+                    let body = Self::print_ops(ops, symbols)?;
+                    if params.is_empty() {
+                        stack.push(body);
+                    } else {
+                        let param_group = params
+                            .iter()
+                            .map(|p| format!("${p}"))
+                            .collect::<Vec<_>>()
+                            .join(", ");
+                        stack.push(format!("{param_group} -> {body}"));
+                    }
+                }
+            }
+        }
+
+        if stack.len() == 1 {
+            stack.pop()
+        } else {
+            None
+        }
+    }
+}
+
 impl fmt::Display for Expression {
     fn fmt(&self, f: &mut fmt::Formatter<'_>) -> fmt::Result {
         let mut syms = default_symbol_table();
-        let expr = self.convert(&mut syms);
-        match expr.print(&syms) {
+        match Self::print_ops(&self.ops, &mut syms) {
             Some(s) => write!(f, "{}", s),
             // a malformed operation sequence (such expressions can be carried by a token or
             // a snapshot) has no source form
-            None => write!(f, "<invalid expression: {:?}>", expr.ops),
+            None => write!(f, "<invalid expression: {:?}>", self.ops),
         }
     }
 }
